@@ -377,6 +377,11 @@ func chainMods(n int, p purposeKind) (viol []chainMod, benign []chainMod) {
 		if i >= 2 {
 			v(fmt.Sprintf("ca-pathlen-too-small@%d", i), i, func(d *chainDesc) { d.tm[i].PathLen = i - 2 })
 		}
+		if i < n-1 {
+			// a key roll-over certificate: the intermediate carries its issuer's name (self-issued) but another key (not self-signed);
+			// it is a CA below the ones above it like any other, and counts against their path length constraints
+			b(fmt.Sprintf("ca-named-like-its-issuer@%d", i), i, func(d *chainDesc) { d.tm[i].CN = d.tm[i+1].CN })
+		}
 		b(fmt.Sprintf("ca-pathlen-exact@%d", i), i, func(d *chainDesc) { d.tm[i].PathLen = i - 1 })
 		b(fmt.Sprintf("ca-pathlen-larger@%d", i), i, func(d *chainDesc) { d.tm[i].PathLen = i + 3 })
 		v(fmt.Sprintf("ca-ku-absent@%d", i), i, func(d *chainDesc) { d.tm[i].KUAbsent = true })
